@@ -27,10 +27,18 @@ type Case struct {
 	Binary  bool       `json:"binary,omitempty"`
 	Eof     string     `json:"eof,omitempty"` // error | eof_code | reset (file streams only; host streams are reset)
 	Queries [][]string `json:"queries"`       // input: get peek read ateos pos eos ; output: see outOps
+	// Pad spaces are put in front of Src and Skip of them are consumed by a loop of get_char / get_byte before the
+	// operations start, so that these work around a chosen offset (the streams buffer 4096 bytes)
+	Pad  int `json:"pad,omitempty"`
+	Skip int `json:"skip,omitempty"`
 }
 
 func (c Case) String() string {
-	return fmt.Sprintf("%s stream=%s binary=%v eof_action=%s src=%q queries=%v", c.Kind, c.Stream, c.Binary, c.Eof, c.Src, c.Queries)
+	pad := ""
+	if c.Pad > 0 {
+		pad = fmt.Sprintf(" (behind %d spaces of which %d are consumed first)", c.Pad, c.Skip)
+	}
+	return fmt.Sprintf("%s stream=%s binary=%v eof_action=%s src=%q%s queries=%v", c.Kind, c.Stream, c.Binary, c.Eof, c.Src, pad, c.Queries)
 }
 
 // ---- cursor model ---------------------------------------------------------------------------------------
@@ -216,6 +224,7 @@ type stats struct {
 }
 
 func checkIn(c Case) (st stats, err error) {
+	src := strings.Repeat(" ", c.Pad) + c.Src
 	i := sut.New()
 	alias := "user_input"
 	eof := "reset"
@@ -227,7 +236,7 @@ func checkIn(c Case) (st stats, err error) {
 		}
 		defer os.RemoveAll(dir)
 		fn := filepath.Join(dir, "in.txt")
-		if e := os.WriteFile(fn, []byte(c.Src), 0o644); e != nil {
+		if e := os.WriteFile(fn, []byte(src), 0o644); e != nil {
 			return st, fmt.Errorf("infrastructure: %v", e)
 		}
 		eof = c.Eof
@@ -243,14 +252,14 @@ func checkIn(c Case) (st stats, err error) {
 	default:
 		var rd interface {
 			Read([]byte) (int, error)
-		} = strings.NewReader(c.Src)
+		} = strings.NewReader(src)
 		switch c.Stream {
 		case "onebyte":
-			rd = iotest.OneByteReader(strings.NewReader(c.Src))
+			rd = iotest.OneByteReader(strings.NewReader(src))
 		case "dataerr":
-			rd = iotest.DataErrReader(strings.NewReader(c.Src))
+			rd = iotest.DataErrReader(strings.NewReader(src))
 		case "half":
-			rd = iotest.HalfReader(strings.NewReader(c.Src))
+			rd = iotest.HalfReader(strings.NewReader(src))
 		}
 		if c.Binary {
 			i.P.SetUserInput(engine.NewInputBinaryStream(rd))
@@ -258,7 +267,18 @@ func checkIn(c Case) (st stats, err error) {
 			i.P.SetUserInput(engine.NewInputTextStream(rd))
 		}
 	}
-	m := &model{src: []byte(c.Src), eof: eof}
+	m := &model{src: []byte(src), eof: eof}
+	if c.Skip > 0 && c.Skip <= c.Pad {
+		get := "get_char"
+		if c.Binary {
+			get = "get_byte"
+		}
+		res := i.Query(fmt.Sprintf("between(1, %d, _), %s(%s, _), fail ; true.", c.Skip, get, alias), []string{}, 1, 5_000_000)
+		if res.Err != nil || len(res.Answers) != 1 {
+			return st, fmt.Errorf("consuming %d padding characters with %s failed: %v", c.Skip, get, res.Err)
+		}
+		m.cur = c.Skip
+	}
 	seen := map[string]bool{}
 	prevPeek := false
 	for qi, ops := range c.Queries {
@@ -533,6 +553,11 @@ func genCase() *rapid.Generator[Case] {
 			return c
 		}
 		c := Case{Kind: "in", Src: genSrc(t)}
+		if u(t, 12, "padded") == 0 {
+			// the operations work around a buffer boundary
+			c.Pad = []int{4096, 8192, 4095, 4097}[u(t, 4, "pad")] - u(t, 4, "short")
+			c.Skip = c.Pad - u(t, 6, "back")
+		}
 		c.Stream = []string{"file", "file", "strings", "onebyte", "dataerr", "half"}[u(t, 6, "stream")]
 		c.Binary = u(t, 4, "bin") == 0
 		c.Eof = []string{"error", "eof_code", "reset"}[u(t, 3, "eof")]
@@ -554,7 +579,7 @@ func genCase() *rapid.Generator[Case] {
 func TestProp(t *testing.T) {
 	r := h.Start(t, "C19")
 	defer r.Finish(t)
-	r.Rule("rapid-generated cases. Input: a source assembled from segments (a lower-case atom or integer, an end '.', layout / comments, and arbitrary characters incl. multi-byte, with and without trailing layout after the last term, so the model knows where every term ends without a second parser) x a stream kind (a file opened with open/4 as text or binary with each eof_action; host readers given to SetUserInput: strings.Reader, one-byte reader, a reader returning its last data together with EOF, a half reader; text or binary) x 1-5 queries of 1-4 operations each from {get_char/get_byte, peek_char/peek_byte, read_term, at_end_of_stream, stream_property position, stream_property end_of_stream} - operations are issued both in separate queries and as conjunctions inside one query. Oracle: a cursor model (bytes, cursor, end_of_file delivered): peeks return what the next read returns and move nothing; consecutive reads deliver consecutive characters, bytes or terms; read_term leaves the cursor right after the end '.'; at the end end_of_file / -1 is delivered once and then eof_action applies (after a peek delivered end_of_file the next read may deliver it again or follow eof_action); position = bytes consumed; end_of_stream is 'not' while input remains and 'past' once end_of_file was delivered by a read. A read_term whose text at the cursor is outside the modelled syntax is not issued. Output: put_char, nl, write, write_term, put_byte sequences on a file or a host writer (text and binary): after close / flush_output the sink holds exactly the concatenation in program order. Non-trivial: a sequence mixing >= 2 operation kinds with a peek followed by another kind, or reaching the end of the source. Distinct by case.",
+	r.Rule("rapid-generated cases. Input: a source assembled from segments (a lower-case atom or integer, an end '.', layout / comments, and arbitrary characters incl. multi-byte, with and without trailing layout after the last term, so the model knows where every term ends without a second parser) x a stream kind (a file opened with open/4 as text or binary with each eof_action; host readers given to SetUserInput: strings.Reader, one-byte reader, a reader returning its last data together with EOF, a half reader; text or binary) (one case in twelve: behind about 4096 or 8192 spaces, all but a few of which a get loop consumes first, so that the operations straddle a buffer boundary) x 1-5 queries of 1-4 operations each from {get_char/get_byte, peek_char/peek_byte, read_term, at_end_of_stream, stream_property position, stream_property end_of_stream} - operations are issued both in separate queries and as conjunctions inside one query. Oracle: a cursor model (bytes, cursor, end_of_file delivered): peeks return what the next read returns and move nothing; consecutive reads deliver consecutive characters, bytes or terms; read_term leaves the cursor right after the end '.'; at the end end_of_file / -1 is delivered once and then eof_action applies (a peek that showed end_of_file changes nothing: the next consuming read still delivers it); position = bytes consumed; end_of_stream is 'not' while input remains and 'past' once end_of_file was delivered by a read. A read_term whose text at the cursor is outside the modelled syntax is not issued. Output: put_char, nl, write, write_term, put_byte sequences on a file or a host writer (text and binary): after close / flush_output the sink holds exactly the concatenation in program order. Non-trivial: a sequence mixing >= 2 operation kinds with a peek followed by another kind, or reaching the end of the source. Distinct by case.",
 		"the cursor model in props/c19", "behaviour after a syntax error in read_term and the at/not distinction when the source is exhausted but has not said so are not asserted")
 	r.Regress(t)
 	if r.Failed() {
@@ -565,6 +590,9 @@ func TestProp(t *testing.T) {
 		st, err := check(c)
 		r.Label("sampled_" + c.Kind)
 		r.Label("stream:" + c.Stream)
+		if c.Pad > 0 {
+			r.Label("around_a_buffer_boundary")
+		}
 		r.Eval(st.ops)
 		if c.Kind == "out" || (st.kinds >= 2 && (st.peekThenRead || st.crossedEnd)) {
 			r.NonTrivial(h.Hash(c), c.Kind+":"+c.Stream, func() any { return c.String() })
